@@ -169,3 +169,11 @@ package dcp
 //@ check.health_off[C19] s.config.HealthCheck.Disabled ==> calls(couchbase.HealthCheck.Start) == 0
 //@ check.closes_once[C13] dcalls("dcp.(*dcp).close") == 1
 //@ modifies anything
+
+// The explicit commit of the public API asks the stream for a save (C05).
+//@ func (*dcp).Commit
+//@ params s
+//@ props C05
+//@ requires s != nil && s.stream != nil
+//@ ensures.asks_for_a_save[C05] calls(stream.Stream.Save) == 1 && arg(stream.Stream.Save, 0, recv) == s.stream
+//@ modifies calls(stream.Stream.Save)
